@@ -52,7 +52,7 @@ func ledgerWorkload(c *fw.Ctx, strata []stratum, total int, mon func(e *exec, st
 func propC01() *fw.Prop {
 	return &fw.Prop{
 		ID: "C01", Level: "exploration",
-		Rule:        "stratified seeded generator of executable scripts (DESIGN §4.1) + regression corpus; each successful run's postings are replayed in order on the starting sheet and every non-exempt account is checked against min(start, −largest granted overdraft) after every posting. A case is non-trivial when a non-exempt account is debited; distinct = (stratum, script shape skeleton, whether the final balance sits exactly on the bound).",
+		Rule:        "stratified seeded generator of executable scripts (DESIGN §4.1) + regression corpus; each successful run's postings are replayed in order on the starting sheet and every non-exempt account is checked against min(start, −largest granted overdraft) after every posting. A case is non-trivial when a non-exempt account is debited; distinct = (stratum, script shape skeleton, whether the final balance sits exactly on the bound). Added in later rounds to every ledger workload: strata with 40..80-account pools and flat sources of up to 70 entries, world-like and colon-joined names, aligned sends, two assets with store-read amounts; numbers written with leading zeros; one parse result run a second time with other variable values and compared with the reference again.",
 		Assumptions: []string{trustedBase, "overdraft grants are read off the generator's own tree with the model's expression evaluator"},
 		Require:     []string{"runs_succeeded", "nontrivial_debiting_runs", "tight_cases", "stratum_repeat", "stratum_negbal", "stratum_save", "stratum_chains"},
 		Run: func(c *fw.Ctx) {
